@@ -46,11 +46,13 @@ theorem applyMsgs_send {c : Cfg} {b b' : Bal} {allow : List (Nat × Nat)} {src d
           exact ⟨h.symm, by omega⟩
     · split at heq
       · cases heq
-      · injection heq with heq; injection heq with h1 h2
-        subst h1
-        unfold applyMsgs at h
-        injection h with h
-        exact ⟨h.symm, by omega⟩
+      · split at heq
+        · cases heq
+        · injection heq with heq; injection heq with h1 h2
+          subst h1
+          unfold applyMsgs at h
+          injection h with h
+          exact ⟨h.symm, by omega⟩
   · cases h
   · cases h
 
